@@ -323,9 +323,18 @@ func (r *Reader) Inspect(validateBlockHash bool) (Stats, error) {
 				return Stats{}, fmt.Errorf("mismatch in content integrity, expected: %s, got: %s", c, gotCid)
 			}
 		} else {
-			// otherwise, skip over it
-			if _, err := dr.Seek(int64(blockLength), io.SeekCurrent); err != nil {
-				return Stats{}, err
+			// otherwise, skip over it; seeking beyond the end succeeds, so read the
+			// last byte to find out whether the block is all there
+			if blockLength > 0 {
+				if _, err := dr.Seek(int64(blockLength)-1, io.SeekCurrent); err != nil {
+					return Stats{}, err
+				}
+				if _, err := bdr.ReadByte(); err != nil {
+					if err == io.EOF {
+						err = io.ErrUnexpectedEOF
+					}
+					return Stats{}, err
+				}
 			}
 		}
 
